@@ -504,35 +504,30 @@ def classify_nesting(env, c, ct, fr, pc, rs, prec, nodes, k):
         if X < 0 or T < 0 or T == P:
             return None
         if T in _split_closure(st, X):
+            # container-owned-by-its-content (own key, narrow rule; triage/demos/C04-container-owned-by-its-content.cpp): the search
+            # through X's own splits (repair 239d50c) does reach the true container T, but T's owner chain leads to X (the owner
+            # pointers are inverted: X lies in a hole of the polygon that T belongs to, yet that polygon is recorded as owned by X),
+            # so the `IsValidOwner(outrec, split)` conjunct of CheckSplitOwner refuses T and X stays where its own chain puts it
+            tc, o = set(), st['owner'][T]
+            while o >= 0 and o not in tc:
+                tc.add(o); o = st['owner'][o]
+            if X in tc:
+                return 'container-owned-by-its-content'
             return 'container-among-own-splits'
-        # the dumped owner chain of X: an owner (or, through a point-less split, an owner further up) was accepted although T is
-        # reachable from the split list of one of them
-        o, steps = st['owner'][X], 0
-        while o >= 0 and steps <= len(st['owner']):
-            if o == T or T in _split_closure(st, o):
-                return 'owner-accepted-inside-split-search'
-            o = st['owner'][o]; steps += 1
-        if X in _split_closure(st, T):
-            return 'origin-of-split-not-searched'
-        # container-is-sibling-split-of-origin (its own key, narrow rule): X has no owner, or its nearest owner with points does
-        # not contain it (ProcessHorzJoins' split branch: `or2->owner = or1->owner`); some OutRec O that is NOT on X's owner
-        # chain reaches X through its split list; the true container T is ANOTHER ring reachable from O's split list (T != O;
-        # T == O stays with origin-of-split-not-searched above, exactly as before).  The split list of the OutRec a ring was
-        # split FROM is never searched.  triage/demos/C04-split-sibling-island.cpp
         chain0, o = set(), st['owner'][X]
         while o >= 0 and o not in chain0:
             chain0.add(o); o = st['owner'][o]
         node_of = {idx_: i_ for i_, (idx_, par_) in enumerate(st['tree'])}
-        ro, steps = st['owner'][X], 0
-        while ro >= 0 and not st['pts'][ro] and steps <= len(st['owner']):
-            ro = st['owner'][ro]; steps += 1
-        unowned = ro < 0 or ro not in node_of or not _contains(paths[node_of[ro]], paths[k])
-        if unowned:
-            for O in range(len(st['pts'])):
-                if O != X and O != T and O not in chain0 and st['splits'][O]:
-                    sc = _split_closure(st, O)
-                    if X in sc and T in sc:
-                        return 'container-is-sibling-split-of-origin'
+        # split-list-outer-before-inner (own key, narrow rule; triage/demos/C04-split-list-outer-before-inner.cpp): the parent P
+        # the tree uses and the true container T are BOTH reachable from the split list of one OutRec A of X's owner chain, P is
+        # NOT on that chain (the marker of repair 239d50c only protects OutRecs on the chain) and P's ring contains T's ring:
+        # CheckSplitOwner(X, A->splits) accepted the first entry of the list that contains X (P, possibly through a point-less
+        # split that GetRealOutRec resolves to P) and never tested the entry nested in it
+        if P >= 0 and P not in chain0 and P in node_of and _contains(paths[node_of[P]], paths[inner]):
+            for A in chain0:
+                sc = _split_closure(st, A)
+                if P in sc and T in sc:
+                    return 'split-list-outer-before-inner'
         # the dumped owner chain of X: an owner (or, through a point-less split, an owner further up) was accepted although T is
         # reachable from the split list of one of them
         o, steps = st['owner'][X], 0
@@ -542,18 +537,32 @@ def classify_nesting(env, c, ct, fr, pc, rs, prec, nodes, k):
             o = st['owner'][o]; steps += 1
         if X in _split_closure(st, T):
             return 'origin-of-split-not-searched'
-        # (cov round) the same defect with the container one step aside: X was split off an OutRec O (it is reachable from O's
-        # split list) that is not on X's owner chain -- ProcessHorzJoins gave it or1->owner -- and its container T is O or
-        # another ring split off O; the split list of the OutRec a ring was split FROM is never searched
-        # (triage/demos/C04-split-sibling-island.cpp)
-        chain0, o = set(), st['owner'][X]
-        while o >= 0 and o not in chain0:
-            chain0.add(o); o = st['owner'][o]
+        # container-is-sibling-split-of-origin (own key, narrow rule; triage/demos/C04-split-sibling-island.cpp): X has no owner,
+        # or its nearest owner with points does not contain it (ProcessHorzJoins' split branch: `or2->owner = or1->owner`); some
+        # OutRec O that is NOT on X's owner chain reaches X through its split list; the true container T is ANOTHER ring
+        # reachable from O's split list (T != O; T == O stays with origin-of-split-not-searched above, exactly as before).
+        # The split list of the OutRec a ring was split FROM is never searched.
+        ro, steps = st['owner'][X], 0
+        while ro >= 0 and not st['pts'][ro] and steps <= len(st['owner']):
+            ro = st['owner'][ro]; steps += 1
+        unowned = ro < 0 or ro not in node_of or not _contains(paths[node_of[ro]], paths[k])
+        in_some_list = False
         for O in range(len(st['pts'])):
-            if O != X and O not in chain0 and st['splits'][O]:
+            if O != X and st['splits'][O]:
                 sc = _split_closure(st, O)
-                if X in sc and (T == O or T in sc):
-                    return 'origin-of-split-not-searched'
+                in_some_list |= X in sc
+                if unowned and O != T and O not in chain0 and X in sc and T in sc:
+                    return 'container-is-sibling-split-of-origin'
+        # no-live-owner-for-ring-in-split-off-hole (own key, narrow rule; triage/demos/C04-island-without-owner.cpp): X's owner
+        # chain contains NO OutRec with points (owner == nullptr, or only dead OutRecs), X has no split list of its own and is in
+        # no split list -- RecursiveCheckOwners(X) leaves its while loop with owner == nullptr without having tested anything and
+        # adds X to the root -- while its container T is a ring that a horizontal join split off (T is an entry of a split list).
+        # Seen origins: AddLocalMaxPoly (`if (!e) outrec.owner = nullptr;`) threw away the owner X got at its local minimum
+        # because no hot edge was left of the closing vertex; or X's owner is a ring that was disposed of (no points, no owner).
+        # The hole around X was only split off afterwards.
+        if ro < 0 and not st['splits'][X] and not in_some_list \
+                and any(T in st['splits'][O] for O in range(len(st['pts']))):
+            return 'no-live-owner-for-ring-in-split-off-hole'
         # ... or the OutRec X was split off has lost its points since (its ring went elsewhere)
         chain, o = set(), st['owner'][X]
         while o >= 0 and o not in chain:
